@@ -59,7 +59,8 @@ _FIELD_PATTERN = re.compile(
     # work around this problem.
     r'{((?P<fname>[^}:]*)((?P<cname_sep>:(?P<cname>[^}\(]*))(\((?P<argstr>[^}]*)\))?)?)}'  # noqa E501
 )
-_IDENTIFIER_PATTERN = re.compile('[A-Za-z_][A-Za-z0-9_]*$')
+# NOTE: \Z rather than $, which would also match before a trailing newline.
+_IDENTIFIER_PATTERN = re.compile(r'[A-Za-z_][A-Za-z0-9_]*\Z')
 
 
 class CompiledRouter:
